@@ -227,7 +227,9 @@ def gen_graph(rng: random.Random, maxn: int = 6, falsy: bool = False, surrogate:
             args = [gen_arg(rng) for _ in range(rng.choice([0, 1, 1, 2, 3]))]
         if surrogate and rng.random() < 0.3:
             args.append({"t": "surrogate"})
-        nodes.append({"cls": cls, "args": args, "cause": None, "context": None, "suppress": None})
+        nodes.append({"cls": cls, "args": args, "cause": None, "context": None, "suppress": None,
+                      # state attached to the instance after construction (callback, lock): not part of args
+                      "attr": rng.choice([None, None, None, None, "lock", "lambda", "plain"])})
     for i in range(n):
         if n > 1 or rng.random() < 0.2:
             if rng.random() < 0.5:
@@ -268,6 +270,11 @@ def build_graph(g: Dict[str, Any]) -> List[BaseException]:
             if any(a["t"] == "self" for a in nd["args"]):
                 # 'self' args must refer to the final object
                 e.args = tuple(e if a["t"] == "self" else x for a, x in zip(nd["args"], e.args))
+        if nd.get("attr") and not isinstance(e, (ExceptionGroup,)):
+            try:
+                e.extra_state = {"lock": threading.Lock, "lambda": lambda: (lambda: 1), "plain": lambda: {"k": 1}}[nd["attr"]]()  # type: ignore[attr-defined]
+            except Exception:  # noqa: BLE001
+                pass
         excs.append(e)
     for nd, e in zip(g["nodes"], excs):
         if nd["cause"] is not None:
@@ -353,7 +360,9 @@ def class_relation(orig: BaseException, loaded: Any, mode: str) -> Optional[str]
     if importable(cls) and stable and reconstructible(cls, args):
         if mode == "pickle":
             try:
-                pickle.loads(pickle.dumps(orig))
+                # the class itself must survive pickling when freshly built from its args (instance state
+                # attached later - a callback, a lock - is not part of the statement's condition)
+                pickle.loads(pickle.dumps(cls(*args)))
             except Exception:  # noqa: BLE001  (class-specific pickling problem: stand-in allowed)
                 stable = False
         if stable:
@@ -477,7 +486,11 @@ def run_c19(spec: Dict[str, Any]) -> "tuple[List[Violation], Dict[str, Any]]":
         if mode == "pickle":
             rel = class_relation(root, err, mode)
             if rel:
-                problems.append(rel)
+                if type(root) in (Exception, BaseException) and hasattr(root, "extra_state") and names_class(err, type(root)) \
+                        and type(err).__name__ == "_UnpickleableExceptionWrapper":
+                    v.append(Violation("bare-exception-with-unpicklable-state", f"pickle: {rel}", {"mode": mode}))
+                else:
+                    problems.append(rel)
         else:
             obs["links"] += check_chain(root, err, mode, frozenset(), problems)
         for pbl in problems[:2]:
@@ -628,6 +641,10 @@ def install_trapmod() -> None:
     m.none = None  # type: ignore[attr-defined]
     m.lam = lambda *a: TRAP_LOG.append("lam")  # type: ignore[attr-defined]  # noqa: E731
     m.partial = __import__("functools").partial(_trap_fn)  # type: ignore[attr-defined]
+    import builtins
+
+    builtins._verif_builtin_trap = _trap_fn  # type: ignore[attr-defined]
+    builtins._VerifBuiltinTrapCls = _TrapCls  # type: ignore[attr-defined]
     sys.modules["trapmod"] = m
     sub = types.ModuleType("trapmod.deep")
     sub.fn = _trap_fn  # type: ignore[attr-defined]
@@ -673,6 +690,26 @@ CATALOGUE: List[Tuple[Optional[str], str]] = [
     ("encodings.cp1252", "Codec"), ("encodings.rot_13", "rot13"), ("encodings.koi8_r", "getregentry"), ("json.tool", "main"),
     ("email.mime", "text"), ("logging.config", "fileConfig"), ("multiprocessing.dummy", "Pool"), ("ctypes.util", "find_library"),
     ("importlib.simple", "SimpleReader"), ("asyncio.__main__", "main"), ("taskiq.cli.watcher", "FileWatcher"),
+]
+
+class _Validating(Exception):
+    def __init__(self, limit: Any = 0) -> None:
+        if isinstance(limit, int) and limit < 0:
+            raise RuntimeError("negative limit")
+        super().__init__(limit)
+
+
+# (module, dotted name, args): genuine exception classes whose constructor rejects these args with something
+# other than TypeError, and module-less names that exist in builtins
+SPECIAL: List[Tuple[Optional[str], str, List[Any]]] = [
+    ("json", "JSONDecodeError", ["msg", 5, 0]), ("builtins", "UnicodeEncodeError", ["ascii", "x", 2 ** 70, 1, "why"]),
+    ("builtins", "UnicodeDecodeError", ["ascii", "notbytes", 0, 1, "why"]), ("builtins", "ExceptionGroup", ["grp", []]),
+    ("builtins", "ExceptionGroup", ["grp", ["notexc"]]), ("mon.excser", "RaisingInit", [1, 2]),
+    ("mon.excser", "_Validating", [-1]), ("mon.excser", "NoArgInit", ["x"]), ("mon.excser", "TwoArgs", ["only-one"]),
+    ("builtins", "OSError", [2, "No such file", "f", 0, "g"]), ("builtins", "SystemExit", [3]),
+    (None, "print", ["pwned"]), (None, "eval", ["1+1"]), (None, "dict", []), (None, "open", ["x"]), (None, "object", []),
+    (None, "ValueError", ["x"]), (None, "_verif_builtin_trap", [1, 2]), (None, "_VerifBuiltinTrapCls", []),
+    (None, "len", ["abc"]), (None, "list", []), (None, "exit", []), (None, "__import__", ["colorsys"]),
 ]
 
 ARGS_POOL: List[List[Any]] = [[], ["x"], ["echo pwned"], [1, 2], [["nested"]], [{"k": "v"}], ["a", "b", "c"], [None]]
@@ -815,6 +852,13 @@ def run_c20(spec: Dict[str, Any]) -> "tuple[List[Violation], Dict[str, Any]]":
                 if c is target or (callable(target) and getattr(c, "__func__", None) is target):
                     v.append(Violation("called-non-exception", f"{entry}: taskiq code called {module}.{name} ({_safe(target)}) while loading a stored error"))
                     break
+        if not ok:
+            leaf = name.split(".")[-1]
+            for c in calls:
+                if leaf and getattr(c, "__name__", None) == leaf and not (isinstance(c, type) and issubclass(c, BaseException)) \
+                        and not any(c is x for x in LEGIT_CALLEES):
+                    v.append(Violation("called-non-exception", f"{entry}: unresolvable ({module!r}, {name!r}) but taskiq code called {_safe(c)}"))
+                    break
         if TRAP_LOG and not is_exc:
             v.append(Violation("trap-invoked", f"{entry}: trap fired {TRAP_LOG[:3]} for ({module!r}, {name!r})"))
         # any non-exception class instantiated from taskiq frames that is not a helper of taskiq itself
@@ -919,8 +963,15 @@ class C20(Check):
                     path.append(nxt)
                 module, name = m, ".".join(path)
             else:
-                module, name = CATALOGUE[i % len(CATALOGUE)]
+                k = i % (len(CATALOGUE) + len(SPECIAL))
                 i += nshards
+                if k >= len(CATALOGUE):
+                    module, name, sargs = SPECIAL[k - len(CATALOGUE)]
+                    yield {"module": module, "name": name, "args": sargs, "nest": rng.choice([0, 0, 1, 2]),
+                           "where": rng.choice(["cause", "context", "mixed"]),
+                           "entries": ["exception_to_python", "model_validate", "model_validate_json"]}
+                    continue
+                module, name = CATALOGUE[k]
             nest = rng.choice([0, 0, 1, 2, 3, 4]) if tier == "thorough" else rng.choice([0, 0, 1, 2])
             yield {"module": module, "name": name, "args": rng.choice(ARGS_POOL), "nest": nest,
                    "where": rng.choice(["cause", "context", "mixed"]),
